@@ -166,6 +166,10 @@ func (x *Exec) runBlock(fr *frame, b *ssa.BasicBlock, st *State, reach Term, ret
 			x.runDefers(fr, st, reach)
 		case *ssa.Send:
 			x.noteEscapes([]Val{x.val(fr, i.X)})
+			if x.ct != nil && x.ct.NoSend {
+				x.addObl(x.fname()+"#nosend[send]", "nosend", "no blocking channel send is reachable", x.noSendProps(),
+					OblPart{NegGoal: reach, NAssume: len(x.c.Assumes), Where: x.pos(i.Pos())}, false)
+			}
 			x.c.Note("channel send in %s modelled as no-op", fr.fn.String())
 		case ssa.Value:
 			r := x.valueInstr(fr, st, i, reach)
@@ -364,6 +368,15 @@ func (x *Exec) valueInstr(fr *frame, st *State, ins ssa.Value, reach Term) Val {
 	case *ssa.Next:
 		return x.next(fr, st, i, reach)
 	case *ssa.Select:
+		if x.ct != nil && x.ct.NoSend && i.Blocking {
+			for _, cs := range i.States {
+				if cs.Dir == types.SendOnly {
+					x.addObl(x.fname()+"#nosend[select]", "nosend", "no blocking select with a send case is reachable", x.noSendProps(),
+						OblPart{NegGoal: reach, NAssume: len(x.c.Assumes), Where: x.pos(i.Pos())}, false)
+					break
+				}
+			}
+		}
 		x.c.Note("select in %s: any case may be chosen (blocking not modelled)", fr.fn.String())
 		tv := freshVal(x.c, fr.prefix+"_select", i.Type())
 		// ghost history: the value last received from a channel parameter (spec: lastrecv(ch))
@@ -999,4 +1012,11 @@ func subLit(a, b Term) Term {
 		}
 	}
 	return Op("bvsub", SBV(64), a, b)
+}
+
+func (x *Exec) noSendProps() []string {
+	if len(x.ct.NoSendProps) > 0 {
+		return x.ct.NoSendProps
+	}
+	return x.ct.Props
 }
